@@ -4,6 +4,7 @@ import (
 	"fmt"
 	"go/types"
 	"math"
+	"reflect"
 	"sort"
 	"strconv"
 	"strings"
@@ -310,6 +311,16 @@ func init() {
 	}
 	vfIntrinsics["vfLogCount"] = func(c *callCtx, a []Value) (Value, callStatus) {
 		return BV(64, uint64(len(c.e.logSink))), callDone
+	}
+	vfIntrinsics["vfJSON"] = func(c *callCtx, a []Value) (Value, callStatus) {
+		var out []*Term
+		iv := a[0].(Iface)
+		if iv.t == nil {
+			putS(&out, "null")
+		} else {
+			c.e.jsonValue(c.g, &out, iv.v, iv.t, 0)
+		}
+		return mkStr(out), callDone
 	}
 	vfIntrinsics["vfSprint"] = func(c *callCtx, a []Value) (Value, callStatus) {
 		sl := a[0].(Slice)
@@ -941,3 +952,171 @@ func (e *Engine) fmtValue(g *G, out *[]*Term, v Value, t types.Type, verb byte, 
 }
 
 var _ = math.Abs
+
+// jsonValue renders v the way encoding/json walks it — exported struct fields (named by their json
+// tag), pointers followed at any depth, maps with sorted keys, slices, dynamic values of interfaces;
+// String()/Error() methods are NOT consulted — without escaping strings. It is used to decide
+// whether a secret can reach a JSON document; []byte (base64 in real JSON) is rendered opaque, a type
+// with its own MarshalJSON/MarshalText is unsupported.
+func (e *Engine) jsonValue(g *G, out *[]*Term, v Value, t types.Type, depth int) {
+	if depth > 12 {
+		panic(pathEnd{kind: endUnsupported, msg: "vfJSON: value nested deeper than 12 (cycle?)"})
+	}
+	for _, mn := range []string{"MarshalJSON", "MarshalText"} {
+		if e.methodByName(t, mn) != nil {
+			panic(pathEnd{kind: endUnsupported, msg: "vfJSON: " + t.String() + " has its own " + mn})
+		}
+	}
+	switch u := t.Underlying().(type) {
+	case *types.Basic:
+		switch x := v.(type) {
+		case Str:
+			putS(out, "\"")
+			*out = append(*out, x.Terms()...)
+			putS(out, "\"")
+		case *Term:
+			if x.W == 0 {
+				if x.IsConst() {
+					if x.V == 1 {
+						putS(out, "true")
+					} else {
+						putS(out, "false")
+					}
+				} else {
+					e.opaque(out)
+				}
+				return
+			}
+			e.fmtValue(g, out, v, t, 'v', false, false, depth+1)
+		default:
+			e.opaque(out)
+		}
+	case *types.Pointer:
+		p := v.(Ptr)
+		if p.obj == nil {
+			putS(out, "null")
+			return
+		}
+		if p.sym != nil {
+			p = e.concretizePtr(p)
+		}
+		e.jsonValue(g, out, e.loadAt(p.obj, p.off, u.Elem()), u.Elem(), depth+1)
+	case *types.Struct:
+		a := v.(Agg)
+		l := layoutOf(t)
+		putS(out, "{")
+		first := true
+		for i := 0; i < u.NumFields(); i++ {
+			f := u.Field(i)
+			if !f.Exported() {
+				continue
+			}
+			name := f.Name()
+			if tag := reflect.StructTag(u.Tag(i)).Get("json"); tag != "" {
+				tn := strings.Split(tag, ",")[0]
+				if tn == "-" && !strings.Contains(tag, ",") {
+					continue
+				}
+				if tn != "" {
+					name = tn
+				}
+			}
+			if !first {
+				putS(out, ",")
+			}
+			first = false
+			putS(out, "\""+name+"\":")
+			ft := f.Type()
+			var fv Value
+			if isAgg(ft) {
+				fv = Agg(a[l.offsets[i] : l.offsets[i]+flatSize(ft)])
+			} else {
+				fv = a[l.offsets[i]]
+			}
+			e.jsonValue(g, out, fv, ft, depth+1)
+		}
+		putS(out, "}")
+	case *types.Slice:
+		s := v.(Slice)
+		if s.obj == nil {
+			putS(out, "null")
+			return
+		}
+		if bitWidth(u.Elem()) == 8 && flatSize(u.Elem()) == 1 {
+			putS(out, "\"")
+			for i := 0; i < (s.len+2)/3*4; i++ {
+				e.opaque(out) // base64 text
+			}
+			putS(out, "\"")
+			return
+		}
+		putS(out, "[")
+		for i := 0; i < s.len; i++ {
+			if i > 0 {
+				putS(out, ",")
+			}
+			e.jsonValue(g, out, e.loadAt(s.obj, s.off+i*s.esz, u.Elem()), u.Elem(), depth+1)
+		}
+		putS(out, "]")
+	case *types.Array:
+		a := v.(Agg)
+		es := flatSize(u.Elem())
+		putS(out, "[")
+		for i := 0; i < int(u.Len()); i++ {
+			if i > 0 {
+				putS(out, ",")
+			}
+			var ev Value
+			if isAgg(u.Elem()) {
+				ev = Agg(a[i*es : (i+1)*es])
+			} else {
+				ev = a[i]
+			}
+			e.jsonValue(g, out, ev, u.Elem(), depth+1)
+		}
+		putS(out, "]")
+	case *types.Map:
+		m := v.(*MapObj)
+		if m == nil {
+			putS(out, "null")
+			return
+		}
+		type kv struct {
+			k  string
+			en mapEntry
+		}
+		var kvs []kv
+		for _, en := range m.entries {
+			if en.live {
+				kvs = append(kvs, kv{describe(en.k), en})
+			}
+		}
+		sort.Slice(kvs, func(i, j int) bool { return kvs[i].k < kvs[j].k })
+		putS(out, "{")
+		for i, x := range kvs {
+			if i > 0 {
+				putS(out, ",")
+			}
+			if ks, ok := x.en.k.(Str); ok {
+				putS(out, "\"")
+				*out = append(*out, ks.Terms()...)
+				putS(out, "\":")
+			} else {
+				putS(out, "\"")
+				e.fmtValue(g, out, x.en.k, u.Key(), 'v', false, false, depth+1)
+				putS(out, "\":")
+			}
+			e.jsonValue(g, out, x.en.v, u.Elem(), depth+1)
+		}
+		putS(out, "}")
+	case *types.Interface:
+		iv := v.(Iface)
+		if iv.t == nil {
+			putS(out, "null")
+			return
+		}
+		e.jsonValue(g, out, iv.v, iv.t, depth+1)
+	default:
+		panic(pathEnd{kind: endUnsupported, msg: "vfJSON: " + t.String() + " is not a JSON value"})
+	}
+}
